@@ -152,3 +152,239 @@ Section HostShared.
         * rewrite Hpath. reflexivity.
   Qed.
 End HostShared.
+
+(* what [Inv] and [stable_b] say about a URL with a host and a list path *)
+Record HostFacts (c : cfg) (u : url) (h : str) : Prop := {
+  HF_dp : u_port u = None -> u_decodedPort u = 0;
+  HF_scan : hscan (IsSpecialScheme c u) false h = true;
+  HF_br : hbr false h = false;
+  HF_64 : mem 64 h = false;
+  HF_small : forallb (fun x => x <? 128) h = true;
+  HF_print : forallb printable h = true;
+  HF_last : h <> [] -> vis (last h 0) = true;
+  HF_segs : forallb (seg_good c (IsSpecialScheme c u)) (u_path u) = true;
+  HF_file : str_eqb (u_scheme u) s_file = true -> drive_ok c u = true /\ str_eqb h s_localhost = false
+}.
+
+Lemma host_facts c u h : CfgRT c -> Inv c u -> u_opaque u = false -> u_host u = Some h -> stable_b c u = true ->
+  HostFacts c u h.
+Proof.
+  intros R Hi Ho Hh Hst.
+  unfold stable_b in Hst. rewrite Ho in Hst. apply andb_true_iff in Hst. destruct Hst as [Hdp Hst].
+  unfold list_stable in Hst. apply andb_true_iff in Hst. destruct Hst as [Hst Hshape].
+  apply andb_true_iff in Hst. destruct Hst as [Hst Hfile]. apply andb_true_iff in Hst. destruct Hst as [Hdots Hbs].
+  unfold host_shape in Hshape. rewrite Hh in Hshape. apply andb_true_iff in Hshape. destruct Hshape as [Hshape H64].
+  apply andb_true_iff in Hshape. destruct Hshape as [Hscan Hbr]. apply negb_true_iff in Hbr, H64.
+  destruct (I_host _ _ Hi h Hh) as [Hok Hpr].
+  constructor.
+  - intros Hp. unfold dport_ok in Hdp. rewrite Hp in Hdp. apply N.eqb_eq in Hdp. exact Hdp.
+  - exact Hscan.
+  - exact Hbr.
+  - exact H64.
+  - apply printable_lt128. exact Hpr.
+  - exact Hpr.
+  - intros Hne. apply (host_last_vis _ h Hok Hpr Hne).
+  - pose proof (I_path _ _ Hi Ho) as Hpath. rewrite forallb_forall in *. intros x Hx.
+    apply (seg_good_of c _ x R (Hpath x Hx)).
+    + intros Hsp. rewrite Hsp in Hbs. cbn [negb orb] in Hbs. rewrite forallb_forall in Hbs.
+      apply negb_true_iff. apply (Hbs x Hx).
+    + apply negb_true_iff. apply (Hdots x Hx).
+  - intros Hf. rewrite Hf in Hfile. cbn [negb orb] in Hfile. apply andb_true_iff in Hfile. destruct Hfile as [F1 F2].
+    split; [exact F1|]. rewrite Hh in F2. cbn [opt_eqb] in F2. apply negb_true_iff in F2. exact F2.
+Qed.
+
+Lemma auth_first user pass h tl :
+  none_in pes_UserInfo user = true -> none_in pes_UserInfo pass = true -> hscan true false h = true -> h <> [] ->
+  exists x l, cred_part user pass ++ h ++ tl = x :: l /\ (x =? 47) = false /\ (x =? 92) = false.
+Proof.
+  intros Hu Hp Hs Hne. unfold cred_part, cred_str.
+  destruct (negb (is_nil user) || negb (is_nil pass)) eqn:E.
+  - destruct user as [|x user'].
+    + destruct pass as [|y pass']; [discriminate E|]. cbn [is_nil negb app].
+      eexists _, _. split; [reflexivity|]. split; reflexivity.
+    + cbn [app]. eexists _, _. split; [reflexivity|]. apply none_in_cons in Hu. destruct Hu as [Hx _].
+      assert (Hx' : x < 128).
+      { unfold RuneShouldBeEncoded in Hx. destruct (bs_test (bits pes_UserInfo) x); [rewrite orb_true_r in Hx; discriminate|]. lia. }
+      pose proof (sweep128 (fun x => implb (negb (RuneShouldBeEncoded pes_UserInfo x)) (negb (x =? 47) && negb (x =? 92)))
+                    ltac:(vm_compute; reflexivity) x Hx') as S.
+      cbv beta in S. rewrite Hx in S. cbn [negb implb] in S. apply andb_true_iff in S. destruct S as [S1 S2].
+      apply negb_true_iff in S1, S2. auto.
+  - destruct h as [|x h']; [congruence|]. cbn [app]. eexists _, _. split; [reflexivity|].
+    cbn [hscan] in Hs. apply andb_true_iff in Hs. destruct Hs as [Hs _]. apply andb_true_iff in Hs. destruct Hs as [_ Hs].
+    apply negb_true_iff in Hs. apply orb_false_iff in Hs. destruct Hs as [Hs1 Hs2].
+    apply orb_false_iff in Hs1. destruct Hs1 as [Hs1 _]. apply orb_false_iff in Hs1. destruct Hs1 as [Hs1 _].
+    cbn [andb] in Hs2. auto.
+Qed.
+
+Lemma at_end_tail path oq of : at_end (flat_map (fun s => 47 :: s) path ++ q_tail oq ++ f_tail of) = true.
+Proof. destruct path; [|reflexivity]. destruct oq; [reflexivity|]. destruct of; reflexivity. Qed.
+
+(* ------------------------------------------------------------------------------------------ *)
+(* a host, a scheme other than file: S4 and the first half of S5                                *)
+(* ------------------------------------------------------------------------------------------ *)
+Section HostNonFile.
+  Variable idna_raw : str -> str * bool.
+  Variable c : cfg.
+  Hypothesis R : CfgRT c.
+
+  Let Hrep := R_rep c R.
+  Let Hfail := R_fail c R.
+
+  Theorem roundtrip_host_nonfile u s :
+    Inv c u -> u_opaque u = false -> u_host u <> None -> str_eqb (u_scheme u) s_file = false ->
+    stable_b c u = true -> host_fixed idna_raw c u -> Href u false = Some s ->
+    Parse idna_raw c s = PUrl (rt_url u s).
+  Proof.
+    intros Hi Ho Hhost Hnf Hst Hfix Hh.
+    destruct (u_host u) as [h|] eqn:Eh; [clear Hhost|congruence].
+    pose proof (host_facts c u h R Hi Ho Eh Hst) as HF.
+    pose proof (I_scheme _ _ Hi) as Hsch.
+    pose proof (I_user _ _ Hi) as Huser. pose proof (I_pass _ _ Hi) as Hpass.
+    set (sp := IsSpecialScheme c u) in *.
+    (* an empty host: non-special, no credentials, no port *)
+    assert (Hnil : h = [] -> sp = false /\ u_username u = [] /\ u_password u = [] /\ u_port u = None).
+    { intros ->. split.
+      - destruct sp eqn:E; [|reflexivity]. destruct (I_special _ _ Hi E) as [_ [_ [h' [E1 [E2|E2]]]]].
+        + rewrite E2 in Hnf. discriminate.
+        + rewrite Eh in E1. injection E1 as <-. congruence.
+      - apply (I_nocred _ _ Hi). right. left. exact Eh. }
+    assert (Hport : forall d, u_port u = Some d -> canonical_decimal d = true /\ (digits_val 10 d <=? 65535) = true /\
+                                                 getSpecialScheme c (u_scheme u) <> Some d).
+    { intros d E. destruct (I_port _ _ Hi d E) as [P1 [P2 [_ P4]]]. auto. }
+    (* the serialization *)
+    rewrite (Href_eq u false (flat_map (fun s => 47 :: s) (u_path u))) in Hh
+      by (unfold Pathname, path_string; rewrite Ho; reflexivity).
+    injection Hh as Hs. rewrite (auth_part_eq u h Eh) in Hs.
+    set (oq := u_query u) in *. set (of := u_fragment u) in *.
+    change (q_part u) with (q_tail oq) in Hs. change (f_part u) with (f_tail of) in Hs.
+    set (pn := flat_map (fun s => 47 :: s) (u_path u)) in *.
+    set (A := cred_part (u_username u) (u_password u) ++ h ++ port_part (u_port u)) in *.
+    assert (Hs' : s = u_scheme u ++ 58 :: 47 :: 47 :: A ++ pn ++ q_tail oq ++ f_tail of).
+    { rewrite <- Hs. unfold A. cbn [app]. rewrite <- !app_assoc. reflexivity. }
+    clear Hs.
+    assert (Hq : forall q, oq = Some q -> none_in (queryset c u) q = true).
+    { intros q E. apply (I_query _ _ Hi q E). }
+    assert (Hf : forall f, of = Some f -> none_in (fragset c u) f = true).
+    { intros f E. apply (I_frag _ _ Hi f E). }
+    destruct (scheme_ok_vis _ Hsch) as [Sne [Svis Shd]].
+    (* the input is clean *)
+    assert (Hpnv : forallb vis pn = true) by apply (pathname_vis c _ R (I_path _ _ Hi Ho)).
+    assert (Hqv : forallb vis (q_tail oq) = true) by apply (q_tail_vis c u R Hi).
+    assert (Hfv : forallb vis (f_tail of) = true) by apply (f_tail_vis c u R Hi).
+    assert (Hportp : forallb vis (port_part (u_port u)) = true).
+    { destruct (u_port u) as [d|] eqn:E; [|reflexivity]. destruct (Hport d eq_refl) as [P1 _].
+      destruct (canonical_vis d P1) as [_ [P _]]. cbn [port_part forallb]. rewrite P. reflexivity. }
+    assert (HAp : forallb printable A = true).
+    { unfold A. rewrite !forallb_app, (forallb_vis_printable _ (cred_part_printable _ _ Huser Hpass)),
+        (HF_print _ _ _ HF), (forallb_vis_printable _ Hportp). reflexivity. }
+    assert (Hprint : forallb printable s = true).
+    { rewrite Hs', forallb_app. cbn [forallb]. rewrite !forallb_app.
+      rewrite (forallb_vis_printable _ Svis), HAp, (forallb_vis_printable _ Hpnv),
+        (forallb_vis_printable _ Hqv), (forallb_vis_printable _ Hfv). reflexivity. }
+    assert (Hne : s <> []). { rewrite Hs'. destruct (u_scheme u); [congruence|discriminate]. }
+    assert (Hhd : vis (hd 0 s) = true). { rewrite Hs'. destruct (u_scheme u); [congruence|exact Shd]. }
+    assert (Hlast : vis (last s 0) = true).
+    { (* the last non-empty component is free of blanks *)
+      assert (HT : forall pre T, T <> [] -> forallb vis T = true -> s = pre ++ T -> vis (last s 0) = true).
+      { intros pre T H1 H2 ->. apply last_app_vis; assumption. }
+      destruct of as [f|] eqn:Ef.
+      { apply (HT (u_scheme u ++ 58 :: 47 :: 47 :: A ++ pn ++ q_tail oq) (f_tail (Some f))); [discriminate| |].
+        - exact Hfv.
+        - rewrite Hs'. rewrite <- !app_assoc. cbn [app]. rewrite <- !app_assoc. reflexivity. }
+      cbn [f_tail] in Hs'. rewrite app_nil_r in Hs'.
+      destruct oq as [q|] eqn:Eq.
+      { apply (HT (u_scheme u ++ 58 :: 47 :: 47 :: A ++ pn) (q_tail (Some q))); [discriminate| |].
+        - exact Hqv.
+        - rewrite Hs'. rewrite <- !app_assoc. cbn [app]. rewrite <- !app_assoc. reflexivity. }
+      cbn [q_tail] in Hs'. rewrite app_nil_r in Hs'.
+      destruct pn as [|x0 pn0] eqn:Epn.
+      2:{ apply (HT (u_scheme u ++ 58 :: 47 :: 47 :: A) (x0 :: pn0)); [discriminate|exact Hpnv|].
+          rewrite Hs'. rewrite <- !app_assoc. cbn [app]. reflexivity. }
+      rewrite app_nil_r in Hs'.
+      destruct (u_port u) as [d|] eqn:Ep.
+      { apply (HT (u_scheme u ++ 58 :: 47 :: 47 :: cred_part (u_username u) (u_password u) ++ h) (port_part (Some d)));
+          [discriminate|exact Hportp|].
+        rewrite Hs'. unfold A. rewrite <- !app_assoc. cbn [app]. rewrite <- !app_assoc. reflexivity. }
+      unfold A in Hs'. cbn [port_part] in Hs'. rewrite app_nil_r in Hs'.
+      destruct h as [|x1 h1] eqn:Eh1.
+      - destruct (Hnil eq_refl) as [_ [E1 [E2 _]]]. rewrite E1, E2 in Hs'. cbn [cred_part is_nil negb orb app] in Hs'.
+        apply (HT (u_scheme u ++ [58; 47]) [47]); [discriminate|reflexivity|].
+        rewrite Hs'. rewrite <- app_assoc. reflexivity.
+      - rewrite Hs'.
+        replace (u_scheme u ++ 58 :: 47 :: 47 :: cred_part (u_username u) (u_password u) ++ x1 :: h1)
+          with ((u_scheme u ++ 58 :: 47 :: 47 :: cred_part (u_username u) (u_password u)) ++ x1 :: h1)
+          by (rewrite <- app_assoc; reflexivity).
+        rewrite last_app_ne by discriminate. apply (HF_last _ _ _ HF). discriminate. }
+    apply (Parse_of_finishes idna_raw c s _ Hrep Hfail Hne Hprint Hhd Hlast).
+    (* the run: scheme, colon *)
+    assert (Hr0 : rest_from (map Good s) 0 = u_scheme u ++ 58 :: 47 :: 47 :: A ++ pn ++ q_tail oq ++ f_tail of).
+    { rewrite rest_map_good. exact Hs'. }
+    destruct (scheme_colon_reach idna_raw c Hrep Hfail _ _ _ (empty_url s) Hr0 Hsch) as [p [Hp [Hr1 Hreach]]].
+    eapply (reaches_finishes idna_raw c Hrep Hfail); [exact Hreach|].
+    set (u0 := set_scheme (empty_url s) (u_scheme u)) in *.
+    destruct (rest_uncons _ (p + 1)%Z _ _ ltac:(blia) Hr1) as [_ [Hr2 _]].
+    destruct (rest_uncons _ (p + 1 + 1)%Z _ _ ltac:(blia) Hr2) as [_ [Hr3 _]].
+    destruct (rest_uncons _ (p + 1 + 1 + 1)%Z _ _ ltac:(blia) Hr3) as [_ [Hr4 _]].
+    (* to the authority state, pointer at the second '/' *)
+    assert (Hto : reaches idna_raw c (map Good s) (mk Scheme p false (u_scheme u) false false false (empty_url s))
+                    (mk Authority (p + 1 + 1 + 1) false [] false false false u0)).
+    { destruct sp eqn:Esp.
+      - eapply (reaches_trans idna_raw c Hrep Hfail).
+        { eapply (reaches_step idna_raw c Hrep Hfail).
+          - rewrite (step_scheme_colon idna_raw c Hrep Hfail _ p _ _ _ _ _ _ ltac:(blia) Hr1).
+            rewrite Hnf. unfold sp, IsSpecialScheme in Esp. rewrite Esp. reflexivity.
+          - reflexivity. }
+        eapply (reaches_trans idna_raw c Hrep Hfail).
+        { eapply (reaches_step idna_raw c Hrep Hfail);
+            [apply (step_sas idna_raw c Hrep Hfail _ (p + 1)%Z _ _ _ _ _ _ ltac:(blia) Hr2)|reflexivity]. }
+        assert (Hhne : h <> []). { intros E. destruct (Hnil E) as [E' _]. discriminate E'. }
+        pose proof (HF_scan _ _ _ HF) as Hscan. fold sp in Hscan. rewrite Esp in Hscan.
+        destruct (auth_first (u_username u) (u_password u) h (port_part (u_port u) ++ pn ++ q_tail oq ++ f_tail of)
+                    Huser Hpass Hscan Hhne) as [x [l [E1 [E2 E3]]]].
+        assert (Hr4' : rest_from (map Good s) (p + 1 + 1 + 1 + 1) = x :: l).
+        { rewrite Hr4. unfold A. rewrite <- !app_assoc. exact E1. }
+        eapply (reaches_eq idna_raw c Hrep Hfail).
+        { eapply (reaches_step idna_raw c Hrep Hfail);
+            [apply (step_sais idna_raw c Hrep Hfail _ (p + 1 + 1 + 1)%Z _ _ _ _ _ _ _ ltac:(blia) Hr4' E2 E3)|reflexivity]. }
+        f_equal. ring.
+      - eapply (reaches_trans idna_raw c Hrep Hfail).
+        { eapply (reaches_step idna_raw c Hrep Hfail).
+          - rewrite (step_scheme_colon idna_raw c Hrep Hfail _ p _ _ _ _ _ _ ltac:(blia) Hr1).
+            rewrite Hnf. unfold sp, IsSpecialScheme in Esp. rewrite Esp. reflexivity.
+          - reflexivity. }
+        eapply (reaches_step idna_raw c Hrep Hfail);
+          [apply (step_poa_auth idna_raw c Hrep Hfail _ (p + 1 + 1)%Z _ _ _ _ _ _ ltac:(blia) Hr3)|reflexivity]. }
+    eapply (reaches_finishes idna_raw c Hrep Hfail); [exact Hto|]. clear Hto.
+    (* the authority *)
+    assert (Hr4' : rest_from (map Good s) (p + 1 + 1 + 1 + 1) =
+                   cred_part (u_username u) (u_password u) ++ h ++ port_part (u_port u) ++ (pn ++ q_tail oq ++ f_tail of)).
+    { rewrite Hr4. unfold A. rewrite <- !app_assoc. reflexivity. }
+    destruct (authority_phase idna_raw c Hrep Hfail _ (p + 1 + 1 + 1)%Z u0 (u_username u) (u_password u) h (u_port u)
+                (pn ++ q_tail oq ++ f_tail of) (all_good_map s) ltac:(blia) Hr4' (at_end_tail _ _ _) eq_refl eq_refl
+                Huser Hpass (HF_scan _ _ _ HF) (HF_br _ _ _ HF) (HF_64 _ _ _ HF) (HF_small _ _ _ HF) Hnil
+                (Hfix h Eh) Hport) as [a [pw Hauth]].
+    eapply (reaches_finishes idna_raw c Hrep Hfail); [exact Hauth|]. clear Hauth.
+    (* the path, the query, the fragment *)
+    pose proof (rest_app _ (p + 1 + 1 + 1 + 1)%Z A _ ltac:(blia) Hr4) as Hr5.
+    pose proof (len_nonneg A) as HlA.
+    replace (p + 1 + 1 + 1 + 1 + len A)%Z with (p + 1 + 1 + 1 + len A + 1)%Z in Hr5 by ring.
+    fold A.
+    eapply (finishes_eq idna_raw c Hrep Hfail).
+    { apply (pathstart_tail idna_raw c R _ (p + 1 + 1 + 1 + len A)%Z a false pw _ (u_path u) oq of ltac:(blia) Hr5).
+      - destruct (u_port u); reflexivity.
+      - destruct (u_port u); reflexivity.
+      - intros Epath. assert (Esp : sp = false).
+        { destruct sp eqn:Esp; [|reflexivity]. destruct (I_special _ _ Hi Esp) as [_ [E _]]. exfalso. exact (E Epath). }
+        destruct (u_port u); exact Esp.
+      - destruct (u_port u); exact (HF_segs _ _ _ HF).
+      - intros seg r _ E. exfalso. destruct (u_port u); cbn in E; rewrite Hnf in E; discriminate E.
+      - destruct (u_port u); exact Hq.
+      - destruct (u_port u); exact Hf. }
+    unfold rt_url. fold oq of. rewrite Eh, Ho.
+    destruct (u_port u) as [d|] eqn:Ep.
+    - destruct (I_port _ _ Hi d Ep) as [_ [_ [P3 _]]]. rewrite P3. destruct oq, of; reflexivity.
+    - rewrite (HF_dp _ _ _ HF Ep). destruct oq, of; reflexivity.
+  Qed.
+End HostNonFile.
+
+Print Assumptions roundtrip_host_nonfile.
